@@ -574,7 +574,12 @@ fn merge_into(m: &mut Merged, v: &Value) {
     for (field, target) in [("counters", &mut m.counters), ("goals", &mut m.goals)] {
         if let Some(o) = v[field].as_object() {
             for (k, x) in o {
-                *target.entry(k.clone()).or_insert(0) += x.as_u64().unwrap_or(0);
+                let e = target.entry(k.clone()).or_insert(0);
+                if k.starts_with("max.") {
+                    *e = (*e).max(x.as_u64().unwrap_or(0));
+                } else {
+                    *e += x.as_u64().unwrap_or(0);
+                }
             }
         }
     }
